@@ -5,7 +5,7 @@ import sys, json, os, itertools
 HERE = os.path.dirname(os.path.abspath(__file__))
 sys.path.insert(0, HERE)
 import rtc
-for m in ('rtc_dwt', 'rtc_dtcwt', 'rtc_scat'):
+for m in ('rtc_dwt', 'rtc_dtcwt', 'rtc_scat', 'rtc_misc'):
     try:
         __import__(m)
     except ImportError:
